@@ -589,10 +589,15 @@ func TestC18Concurrent(t *testing.T) {
 			t.Fatal(err)
 		}
 		defer writer.Close()
-		reconnect := rapid.Bool().Draw(t, "reconnect")
+		// connection options: none, reconnect, or reconnect driven by the inactivity probe
+		mode := rapid.SampledFrom([]string{"plain", "reconnect", "reconnect", "inactivity"}).Draw(t, "mode")
+		reconnect := mode != "plain"
 		var opts []client.Option
-		if reconnect {
+		switch mode {
+		case "reconnect":
 			opts = append(opts, client.WithReconnect(2*time.Second, backoff.NewConstantBackOff(2*time.Millisecond)))
+		case "inactivity":
+			opts = append(opts, client.WithInactivityCheck(time.Duration(rapid.SampledFrom([]int{40, 120, 1000}).Draw(t, "inactivityms"))*time.Millisecond, 2*time.Second, backoff.NewConstantBackOff(2*time.Millisecond)))
 		}
 		c, err := kit.NewClient(w, px.Endpoint(), opts...)
 		if err != nil {
@@ -622,7 +627,8 @@ func TestC18Concurrent(t *testing.T) {
 			progs[g] = rapid.SliceOfN(rapid.SampledFrom(callNames), 4, 14).Draw(t, "calls")
 		}
 		cuts := rapid.IntRange(0, 3).Draw(t, "cuts")
-		kase := map[string]interface{}{"programs": progs, "reconnect": reconnect, "cuts": cuts}
+		kase := map[string]interface{}{"programs": progs, "reconnect": reconnect, "mode": mode, "cuts": cuts}
+		kit.Label("C18", "mode:"+mode)
 		var torn atomic.Value
 		var hang atomic.Value
 		var overlapped int32
